@@ -19,29 +19,37 @@
 EXTENDS Integers, Sequences, FiniteSets, TLC, Json
 
 CONSTANTS Last,        \* rows and columns 1..Last of sheet 1 are in play (far from the real grid edge)
+          MaxK,        \* insert / delete / move 1..MaxK rows or columns at a time
+          MaxD,        \* move by -MaxD..MaxD
           MaxSteps
 
 Bottom == 0     \* the image of a deleted row / column
+MaxRC == 999    \* stands for "the last row / column" in whole-column and whole-row ranges
 
 (* ---- references --------------------------------------------------------- *)
 CellRef(s, r, c, ar, ac) == [kind |-> "cell", s |-> s, r1 |-> r, c1 |-> c, ar1 |-> ar, ac1 |-> ac, r2 |-> r, c2 |-> c, ar2 |-> ar, ac2 |-> ac, st |-> "ok"]
 RangeRef(s, r1, c1, r2, c2, ar1, ac1, ar2, ac2) ==
   [kind |-> "range", s |-> s, r1 |-> r1, c1 |-> c1, ar1 |-> ar1, ac1 |-> ac1, r2 |-> r2, c2 |-> c2, ar2 |-> ar2, ac2 |-> ac2, st |-> "ok"]
+ColsRef(s, c1, c2, ac1, ac2) == [kind |-> "cols", s |-> s, r1 |-> 1, c1 |-> c1, ar1 |-> FALSE, ac1 |-> ac1, r2 |-> MaxRC, c2 |-> c2, ar2 |-> FALSE, ac2 |-> ac2, st |-> "ok"]   \* C:D
+RowsRef(s, r1, r2, ar1, ar2) == [kind |-> "rows", s |-> s, r1 |-> r1, c1 |-> 1, ar1 |-> ar1, ac1 |-> FALSE, r2 |-> r2, c2 |-> MaxRC, ar2 |-> ar2, ac2 |-> FALSE, st |-> "ok"]   \* 2:3
+NameRef(n) == [kind |-> "name", s |-> 0, r1 |-> 0, c1 |-> 0, ar1 |-> FALSE, ac1 |-> FALSE, r2 |-> 0, c2 |-> 0, ar2 |-> FALSE, ac2 |-> FALSE, st |-> "ok", name |-> n]
 (* st: "ok" | "referr" (must be #REF!) | "open" (the statement leaves it open: either shrunk or #REF!) *)
 
 (* b: the cell is bold (its style travels with it);  keep: the formula's value must be what it was *)
 Num(id) == [k |-> "num", id |-> id, refs |-> <<>>, keep |-> TRUE, b |-> (id % 3 = 0)]
 QText(id) == [k |-> "qtext", id |-> id, refs |-> <<>>, keep |-> TRUE, b |-> TRUE]
+Lit(id) == [k |-> "lit", id |-> id, refs |-> <<>>, keep |-> TRUE, b |-> (id % 2 = 0)]    \* what is typed for id: the harness's vocabulary
 Formula(id, refs) == [k |-> "f", id |-> id, refs |-> refs, keep |-> TRUE, b |-> (id \in {1, 4})]
 
 VARIABLES cells,     \* set of [s, r, c, v]  (v: content)
           rowh, colw,  \* sets of <<index, size>> on sheet 1
           links,     \* set of <<r, c>> on sheet 1 carrying a hyperlink
           cf,        \* the conditional-format rule of sheet 1: area [r1, c1, r2, c2, st] and the reference fref of its formula
+          names,     \* defined names: set of [name, ref]
           prev,      \* the workbook before the last action (what undo restores)
           trail, steps
-vars == <<cells, rowh, colw, links, cf, prev, trail, steps>>
-Book == [cells |-> cells, rowh |-> rowh, colw |-> colw, links |-> links, cf |-> cf]
+vars == <<cells, rowh, colw, links, cf, names, prev, trail, steps>>
+Book == [cells |-> cells, rowh |-> rowh, colw |-> colw, links |-> links, cf |-> cf, names |-> names]
 
 (* ---- the initial workbook ------------------------------------------------ *)
 Grid == {[s |-> 1, r |-> r, c |-> c, v |-> Num(r * 10 + c)] : r \in 1..4, c \in 1..4}
@@ -53,28 +61,34 @@ Formulas == {
   F(1, 4, 4, 4, <<CellRef(1, 4, 3, TRUE, FALSE), CellRef(1, 5, 5, FALSE, FALSE)>>),
   F(2, 1, 1, 5, <<CellRef(1, 2, 3, FALSE, FALSE), RangeRef(1, 2, 2, 3, 3, FALSE, FALSE, TRUE, TRUE)>>),
   F(2, 3, 2, 6, <<CellRef(2, 1, 2, FALSE, FALSE), CellRef(1, 3, 1, TRUE, TRUE)>>),
-  F(1, 3, 4, 7, <<RangeRef(1, 3, 1, 3, 3, FALSE, FALSE, FALSE, FALSE)>>) }
-Others == {[s |-> 1, r |-> 1, c |-> 3, v |-> QText(7)], [s |-> 2, r |-> 1, c |-> 2, v |-> Num(99)]}
+  F(1, 3, 4, 7, <<RangeRef(1, 3, 1, 3, 3, FALSE, FALSE, FALSE, FALSE)>>),
+  F(2, 2, 1, 8, <<ColsRef(1, 3, 4, FALSE, TRUE), RowsRef(1, 2, 2, FALSE, FALSE)>>),
+  F(2, 4, 4, 9, <<NameRef("TAXRATE"), CellRef(1, 2, 4, FALSE, FALSE)>>) }
+L(r, c, id) == [s |-> 1, r |-> r, c |-> c, v |-> Lit(id)]
+Others == {[s |-> 1, r |-> 1, c |-> 3, v |-> QText(7)], [s |-> 2, r |-> 1, c |-> 2, v |-> Num(99)],
+           L(1, 4, 102), L(2, 4, 103), L(4, 2, 104), L(2, 1, 105), L(3, 2, 106), L(2, 3, 107),
+           L(2, 5, 108), L(3, 5, 110), L(4, 5, 109), L(5, 2, 111), L(5, 3, 112), L(5, 4, 113)}
+Names0 == {[name |-> "TAXRATE", ref |-> CellRef(1, 3, 2, TRUE, TRUE)]}
 Occupied(S) == {<<x.s, x.r, x.c>> : x \in S}
 Cells0 == {x \in Grid : <<x.s, x.r, x.c>> \notin Occupied(Formulas \cup Others)} \cup Formulas \cup Others
 
 Rowh0 == {<<2, 40>>, <<4, 60>>}
 Colw0 == {<<1, 120>>, <<3, 50>>}
-Links0 == {<<1, 2>>, <<3, 3>>, <<4, 1>>}
+Links0 == {<<1, 2>>, <<3, 3>>, <<4, 1>>, <<5, 3>>}    \* (5,3) holds a URL: the engine links it by itself
 Cf0 == [r1 |-> 2, c1 |-> 2, r2 |-> 3, c2 |-> 4, st |-> "ok", fref |-> CellRef(1, 5, 5, TRUE, TRUE)]
 SInit ==
   /\ cells = Cells0
   /\ rowh = Rowh0 /\ colw = Colw0
   /\ links = Links0
-  /\ cf = Cf0
-  /\ prev = [cells |-> Cells0, rowh |-> Rowh0, colw |-> Colw0, links |-> Links0, cf |-> Cf0]
+  /\ cf = Cf0 /\ names = Names0
+  /\ prev = [cells |-> Cells0, rowh |-> Rowh0, colw |-> Colw0, links |-> Links0, cf |-> Cf0, names |-> Names0]
   /\ trail = <<>> /\ steps = 0
 
 (* ---- position maps (on one coordinate) ------------------------------------ *)
-SigIns(i, k) == [p \in 0..(Last + 8) |-> IF p >= i THEN p + k ELSE p]
-SigDel(i, k) == [p \in 0..(Last + 8) |-> IF p < i THEN p ELSE IF p < i + k THEN Bottom ELSE p - k]
+SigIns(i, k) == [p \in 0..(Last + 4 * MaxK + 2 * MaxD) |-> IF p >= i THEN p + k ELSE p]
+SigDel(i, k) == [p \in 0..(Last + 4 * MaxK + 2 * MaxD) |-> IF p < i THEN p ELSE IF p < i + k THEN Bottom ELSE p - k]
 SigMove(i, n, d) ==       \* block [i, i+n-1] moved by d; the band in between shifts by n the other way
-  [p \in 0..(Last + 8) |->
+  [p \in 0..(Last + 4 * MaxK + 2 * MaxD) |->
      IF p \in i..(i + n - 1) THEN p + d
      ELSE IF d > 0 /\ p \in (i + n)..(i + n - 1 + d) THEN p - n
      ELSE IF d < 0 /\ p \in (i + d)..(i - 1) THEN p + n
@@ -98,6 +112,7 @@ MoveClassOK(lo, hi, i, n, d) ==
 
 Displace(ref, axis, sig, op, i, n, d) ==
   IF ref.s # 1 \/ ref.st # "ok" THEN ref
+  ELSE IF (ref.kind = "cols" /\ axis = "r") \/ (ref.kind = "rows" /\ axis = "c") THEN ref    \* a whole column has no row ends
   ELSE LET a == End1(ref, axis)  b == End2(ref, axis) IN
        IF ref.kind = "cell"
          THEN IF sig[a] = Bottom THEN [ref EXCEPT !.st = "referr"] ELSE WithEnds(ref, axis, sig[a], sig[a])
@@ -109,29 +124,42 @@ Displace(ref, axis, sig, op, i, n, d) ==
        ELSE WithEnds(ref, axis, sig[a], sig[b])
 
 (* does the formula read a deleted cell / a range the move may have torn? then its value is not constrained *)
-Touches(ref, axis, sig, op, i, n, d) ==
+TouchesRef(ref, axis, sig, op, i, n, d) ==
   ref.s = 1 /\ ref.st = "ok" /\
-  LET a == End1(ref, axis)  b == End2(ref, axis) IN
-  IF op = "move" THEN ref.kind = "range" /\ ~MoveClassOK(a, b, i, n, d)
-  ELSE \E p \in a..b : sig[p] = Bottom
+  IF (ref.kind = "cols" /\ axis = "r") \/ (ref.kind = "rows" /\ axis = "c")
+    THEN op # "ins"          \* a whole column reads the deleted rows; a move inside it is outside C15's side condition
+  ELSE LET a == End1(ref, axis)  b == End2(ref, axis) IN
+       IF op = "move" THEN ref.kind # "cell" /\ ~MoveClassOK(a, b, i, n, d)
+       ELSE \E p \in a..b : sig[p] = Bottom
+Touches(ref, axis, sig, op, i, n, d) ==
+  IF ref.kind = "name" THEN \E nm \in names : nm.name = ref.name /\ TouchesRef(nm.ref, axis, sig, op, i, n, d)
+  ELSE TouchesRef(ref, axis, sig, op, i, n, d)
 
-DisplaceContent(v, axis, sig, op, i, n, d) ==
+(* blank: the deleted band is the one the previous step inserted - it holds nothing, so no value can change (C14) *)
+DisplaceContent(v, axis, sig, op, i, n, d, blank) ==
   IF v.k # "f" THEN v
   ELSE [v EXCEPT !.refs = [j \in 1..Len(v.refs) |-> Displace(v.refs[j], axis, sig, op, i, n, d)],
-                 !.keep = v.keep /\ ~\E j \in 1..Len(v.refs) : Touches(v.refs[j], axis, sig, op, i, n, d)]
+                 !.keep = v.keep /\ (blank \/ ~\E j \in 1..Len(v.refs) : Touches(v.refs[j], axis, sig, op, i, n, d))]
 
 (* a formula that reads a formula whose value is no longer constrained is not constrained either *)
-Reads(x, y) == \E j \in 1..Len(x.v.refs) : LET ref == x.v.refs[j] IN
+Reads(x, y, NM) == \E j \in 1..Len(x.v.refs) :
+                 LET ref0 == x.v.refs[j]
+                     ref == IF ref0.kind = "name" THEN (CHOOSE nm \in NM : nm.name = ref0.name).ref ELSE ref0 IN
                  ref.st = "ok" /\ ref.s = y.s /\ y.r \in ref.r1..ref.r2 /\ y.c \in ref.c1..ref.c2
-Propagate(S) == { IF x.v.k = "f" /\ x.v.keep /\ (\E y \in S : y.v.k = "f" /\ ~y.v.keep /\ Reads(x, y))
+Propagate(S, NM) == { IF x.v.k = "f" /\ x.v.keep /\ (\E y \in S : y.v.k = "f" /\ ~y.v.keep /\ Reads(x, y, NM))
                     THEN [x EXCEPT !.v.keep = FALSE] ELSE x : x \in S }
 
 Coord(x, axis) == IF axis = "r" THEN x.r ELSE x.c
 MoveCell(x, axis, q) == IF axis = "r" THEN [x EXCEPT !.r = q] ELSE [x EXCEPT !.c = q]
 
 Apply(axis, sig, op, i, n, d, a) ==
-  /\ cells' = Propagate(Propagate(Propagate(
-                { MoveCell([x EXCEPT !.v = DisplaceContent(x.v, axis, sig, op, i, n, d)], axis, IF x.s = 1 THEN sig[Coord(x, axis)] ELSE Coord(x, axis))
+  LET blank == /\ op = "del" /\ trail # <<>>
+               /\ trail[Len(trail)].a.op = (IF axis = "r" THEN "insert_rows" ELSE "insert_cols")
+               /\ trail[Len(trail)].a.i = i /\ trail[Len(trail)].a.k = n
+      NM == {[nm EXCEPT !.ref = Displace(nm.ref, axis, sig, op, i, n, d)] : nm \in names}
+      P(S) == Propagate(S, NM) IN
+  /\ cells' = P(P(P(
+                { MoveCell([x EXCEPT !.v = DisplaceContent(x.v, axis, sig, op, i, n, d, blank)], axis, IF x.s = 1 THEN sig[Coord(x, axis)] ELSE Coord(x, axis))
                   : x \in {y \in cells : y.s # 1 \/ sig[Coord(y, axis)] # Bottom} })))
   /\ rowh' = IF axis = "r" THEN {<<sig[p[1]], p[2]>> : p \in {q \in rowh : sig[q[1]] # Bottom}} ELSE rowh
   /\ colw' = IF axis = "c" THEN {<<sig[p[1]], p[2]>> : p \in {q \in colw : sig[q[1]] # Bottom}} ELSE colw
@@ -141,9 +169,10 @@ Apply(axis, sig, op, i, n, d, a) ==
                moved == IF cf.st = "ok" THEN Displace(asRange, axis, sig, op, i, n, d) ELSE [asRange EXCEPT !.st = cf.st] IN
            [r1 |-> moved.r1, c1 |-> moved.c1, r2 |-> moved.r2, c2 |-> moved.c2, st |-> moved.st,
             fref |-> Displace(cf.fref, axis, sig, op, i, n, d)]
+  /\ names' = NM
   /\ prev' = Book
   /\ steps' = steps + 1
-  /\ trail' = Append(trail, [a |-> a, cells |-> cells', rowh |-> rowh', colw |-> colw', links |-> links', cf |-> cf'])
+  /\ trail' = Append(trail, [a |-> a, cells |-> cells', rowh |-> rowh', colw |-> colw', links |-> links', cf |-> cf', names |-> names'])
 
 InsRows(i, k) == Apply("r", SigIns(i, k), "ins", i, k, 0, [op |-> "insert_rows", s |-> 0, i |-> i, k |-> k])
 InsCols(i, k) == Apply("c", SigIns(i, k), "ins", i, k, 0, [op |-> "insert_cols", s |-> 0, i |-> i, k |-> k])
@@ -155,23 +184,26 @@ MoveCols(i, n, d) == i + d >= 1 /\ Apply("c", SigMove(i, n, d), "move", i, n, d,
 (* ---- C33: clearing a cell's content removes its link (the style stays); undo restores it ---- *)
 Clear(r, c) ==
   LET a == [op |-> "clear_contents", s |-> 0, r |-> r, c |-> c, w |-> 1, h |-> 1]
-      target == [s |-> 1, r |-> r, c |-> c] IN
+      P(S) == Propagate(S, names) IN
   /\ \E x \in cells : x.s = 1 /\ x.r = r /\ x.c = c
-  /\ cells' = Propagate(Propagate(Propagate(
-        { IF x.v.k = "f" /\ (\E j \in 1..Len(x.v.refs) : LET ref == x.v.refs[j] IN ref.st = "ok" /\ ref.s = 1 /\ r \in ref.r1..ref.r2 /\ c \in ref.c1..ref.c2)
+  /\ cells' = P(P(P(
+        { IF x.v.k = "f" /\ (\E j \in 1..Len(x.v.refs) :
+                           LET ref0 == x.v.refs[j]
+                               ref == IF ref0.kind = "name" THEN (CHOOSE nm \in names : nm.name = ref0.name).ref ELSE ref0 IN
+                           ref.st = "ok" /\ ref.s = 1 /\ r \in ref.r1..ref.r2 /\ c \in ref.c1..ref.c2)
             THEN [x EXCEPT !.v.keep = FALSE] ELSE x
           : x \in {y \in cells : ~(y.s = 1 /\ y.r = r /\ y.c = c)} })))
   /\ links' = links \ {<<r, c>>}
-  /\ UNCHANGED <<rowh, colw, cf>>
+  /\ UNCHANGED <<rowh, colw, cf, names>>
   /\ prev' = Book
   /\ steps' = steps + 1
-  /\ trail' = Append(trail, [a |-> a, cells |-> cells', rowh |-> rowh', colw |-> colw', links |-> links', cf |-> cf'])
+  /\ trail' = Append(trail, [a |-> a, cells |-> cells', rowh |-> rowh', colw |-> colw', links |-> links', cf |-> cf', names |-> names'])
 Undo ==
   /\ trail # <<>> /\ trail[Len(trail)].a.op = "clear_contents"
-  /\ cells' = prev.cells /\ rowh' = prev.rowh /\ colw' = prev.colw /\ links' = prev.links /\ cf' = prev.cf
+  /\ cells' = prev.cells /\ rowh' = prev.rowh /\ colw' = prev.colw /\ links' = prev.links /\ cf' = prev.cf /\ names' = prev.names
   /\ prev' = Book
   /\ steps' = steps + 1
-  /\ trail' = Append(trail, [a |-> [op |-> "undo"], cells |-> cells', rowh |-> rowh', colw |-> colw', links |-> links', cf |-> cf'])
+  /\ trail' = Append(trail, [a |-> [op |-> "undo"], cells |-> cells', rowh |-> rowh', colw |-> colw', links |-> links', cf |-> cf', names |-> names'])
 (* cutting a linked cell and pasting it on an empty one moves content, style and link; what formulas that *)
 (* read the source become is another property's business (C04), so their references are left open        *)
 CutPaste(r, c, tr, tc) ==
@@ -184,16 +216,17 @@ CutPaste(r, c, tr, tc) ==
                 ELSE x : x \in cells }
   /\ links' = (links \ {<<r, c>>}) \cup {<<tr, tc>>}
   /\ cf' = [cf EXCEPT !.st = "open", !.fref = [cf.fref EXCEPT !.st = "open"]]
+  /\ names' = {[nm EXCEPT !.ref.st = "open"] : nm \in names}
   /\ UNCHANGED <<rowh, colw>>
   /\ prev' = Book
   /\ steps' = steps + 1
-  /\ trail' = Append(trail, [a |-> a, cells |-> cells', rowh |-> rowh', colw |-> colw', links |-> links', cf |-> cf'])
+  /\ trail' = Append(trail, [a |-> a, cells |-> cells', rowh |-> rowh', colw |-> colw', links |-> links', cf |-> cf', names |-> names'])
 
 SNext ==
   /\ steps < MaxSteps
-  /\ \/ \E i \in 1..Last, k \in 1..2 : InsRows(i, k) \/ InsCols(i, k) \/ DelRows(i, k) \/ DelCols(i, k)
-     \/ \E i \in 1..Last, n \in 1..2, d \in {-2, -1, 1, 2} : MoveRows(i, n, d) \/ MoveCols(i, n, d)
-     \/ \E r \in 1..4, c \in 1..4 : Clear(r, c)
+  /\ \/ \E i \in 1..Last, k \in 1..MaxK : InsRows(i, k) \/ InsCols(i, k) \/ DelRows(i, k) \/ DelCols(i, k)
+     \/ \E i \in 1..Last, n \in 1..MaxK, d \in ((0 - MaxD)..MaxD) \ {0} : MoveRows(i, n, d) \/ MoveCols(i, n, d)
+     \/ \E r \in 1..5, c \in 1..5 : Clear(r, c)
      \/ Undo
      \/ \E p \in links, t \in {<<6, 2>>, <<2, 6>>, <<7, 7>>} : CutPaste(p[1], p[2], t[1], t[2])
 SSpec == SInit /\ [][SNext]_vars
@@ -203,7 +236,7 @@ IsInsDel ==
   Len(trail) = 2 /\ trail[1].a.op \in {"insert_rows", "insert_cols"} /\
   trail[2].a.op = (IF trail[1].a.op = "insert_rows" THEN "delete_rows" ELSE "delete_cols") /\
   trail[2].a.i = trail[1].a.i /\ trail[2].a.k = trail[1].a.k
-InsertDeleteIdentity == IsInsDel => (cells = Cells0 /\ rowh = Rowh0 /\ colw = Colw0 /\ links = Links0 /\ cf = Cf0)
+InsertDeleteIdentity == IsInsDel => (cells = Cells0 /\ rowh = Rowh0 /\ colw = Colw0 /\ links = Links0 /\ cf = Cf0 /\ names = Names0)
 (* C33 on the design: clear then undo is the identity *)
 ClearUndoIdentity == (Len(trail) = 2 /\ trail[2].a.op = "undo") => (cells = Cells0 /\ links = Links0 /\ cf = Cf0)
 
@@ -215,5 +248,5 @@ InsertLosesNothing == [][ (trail' # trail /\ trail'[Len(trail')].a.op \in {"inse
                     (Cardinality(cells') = Cardinality(cells) /\
                      \A x \in cells' : x.v.k = "f" => \A j \in 1..Len(x.v.refs) : (x.v.refs[j].st = "ok" \/ \E y \in cells : y.v.id = x.v.id /\ y.v.k = "f" /\ y.v.refs[j].st # "ok")) ]_vars
 
-Emit == (steps = MaxSteps) => PrintT(<<"BEHAVIOUR", ToJson([init |-> [cells |-> Cells0, rowh |-> Rowh0, colw |-> Colw0, links |-> Links0, cf |-> Cf0], steps |-> trail])>>)
+Emit == (steps = MaxSteps) => PrintT(<<"BEHAVIOUR", ToJson([init |-> [cells |-> Cells0, rowh |-> Rowh0, colw |-> Colw0, links |-> Links0, cf |-> Cf0, names |-> Names0], steps |-> trail])>>)
 =============================================================================
